@@ -521,6 +521,18 @@ pub fn cf_roundtrip(args: &[String]) -> Result<Value> {
             }
         }
     }
+    // known finding F19: one strict comparison (empty `else` arms NOT normalised away): walrus writes an `else` for every `if` that has none
+    {
+        checked += 1;
+        let wasm = wat::parse_str(r#"(module (func (export "f") (param i32) (if (local.get 0) (then (drop (i32.const 1))))))"#)?;
+        let out = roundtrip(&wasm)?;
+        let a = operators(&wasm)?; let b = operators(&out)?;
+        let (a, b) = (a.last().cloned().unwrap_or_default(), b.last().cloned().unwrap_or_default());
+        if a != b {
+            failures.push(json!({"program": "if without else", "finding_key": "C03:empty-else-written-for-an-if-without-else",
+                "what": "the output body is not the input's operator sequence: an `else` was added", "input_body": a, "output_body": b, "input_wasm_hex": hex(&wasm)}));
+        }
+    }
     Ok(json!({"violated": !failures.is_empty(), "programs_generated": all.len(), "programs_checked": checked,
               "rejected_by_validator": skipped, "budget": budget, "max_depth": max_depth, "failures": failures}))
 }
